@@ -336,8 +336,20 @@ fn compress(enc: &str, level: u32, body: &[u8]) -> Vec<u8> {
     }
 }
 /// response: code, headers, body chunks (valid or corrupt compressed streams under a Content-Encoding header, arbitrary chunking)
+/// unbalanced soups of start / end tags over the element-tree names the generated filters use (the visitors'
+/// enter / leave cursor is driven by exactly these)
+fn gen_tag_soup(rng: &R) -> Vec<u8> {
+    let mut s = String::new();
+    for _ in 0..rng.below(12) {
+        let name = *rng.pick(&["html", "body", "main", "div", "html", "body"]);
+        match rng.below(5) { 0 | 1 => { s.push('<'); s.push_str(name); s.push('>'); } 2 | 3 => { s.push_str("</"); s.push_str(name); s.push('>'); } _ => { s.push('<'); s.push_str(name); s.push_str("/>"); } }
+        if rng.chance(1, 4) { s.push_str("t"); }
+    }
+    s.into_bytes()
+}
+
 fn gen_response(rng: &R) -> Value {
-    let plain = if rng.chance(2, 3) { gen_html(rng).into_bytes() } else { gen_bytes(rng) };
+    let plain = match rng.below(9) { 0 | 1 | 2 => gen_tag_soup(rng), 3 | 4 | 5 | 6 => gen_html(rng).into_bytes(), _ => gen_bytes(rng) };
     let mut headers: Vec<Value> = Vec::new();
     let mut wire = plain.clone();
     if rng.chance(1, 2) {
